@@ -236,6 +236,7 @@ class SplineCV(BaseGridder):
                         data=data,
                         weights=weights,
                         cv=self.cv,
+                        scoring=self.scoring,
                     )
                 )
             scores = [np.mean(score.result()) for score in scores]
